@@ -2,13 +2,15 @@
    are released.  Statements only; every proof is [exact <lemma of Proofs/ChanMgr.v>].
 
    The model (Model/ChanMgr.v) is one ChannelManager of bumble/l2cap.py after the repairs
-   D09a-D09f and D07.  Its environment is universally quantified: [reachable m] means m is
+   D09a-D09j, D07 and D08.  Its environment is universally quantified: [reachable m] means m is
    the state after ANY finite sequence of events - API calls of the application
-   (open LE / enhanced / classic, disconnect, abort, write, grant credits), ANY signalling
+   (open LE / enhanced / classic, disconnect, abort, cancellation of an awaited call, write,
+   grant credits), ANY signalling
    frame received on ANY connection, loss of ANY connection - that satisfies the
    hypotheses [ev_ok] (Model/ChanMgr.v, end of file) at every step. *)
 From Coq Require Import ZArith List Bool String.
-From BV Require Import Gen.C09Tables Model.ChanMgr Proofs.ChanMgrLib Proofs.ChanMgr.
+From BV Require Import Gen.C09Tables Gen.C09Skeleton Model.ChanMgr Proofs.ChanMgrLib Proofs.ChanMgr
+  Proofs.ChanMgrSkeleton Proofs.ChanMgrDet Proofs.ChanMgrDetStep Proofs.ChanMgrReopen.
 Import ListNotations.
 Open Scope Z_scope.
 
@@ -32,6 +34,14 @@ Proof.
   apply existsb_exists in H. destruct H as [x [Hx He]]. apply String.eqb_eq in He. subst. exact Hx.
 Qed.
 Print Assumptions C09_cleanup_complete.
+
+(* The anchored functions (39: ChannelManager's allocators, handlers, create_* and cleanup;
+   the connection / disconnection / abort paths of both channel classes) have exactly the shape
+   the model was written against: same tests, same order of state changes, table updates,
+   futures completed, frames sent and calls. *)
+Theorem C09_skeleton_matches_source : skeleton_of_source = skeleton_modelled.
+Proof. vm_compute. reflexivity. Qed.
+Print Assumptions C09_skeleton_matches_source.
 
 (* ---- tables_exact: refinement to the set of channels in use *)
 (* `channels` contains (handle, cid, channel) exactly when the channel object exists, belongs
@@ -110,6 +120,45 @@ Theorem C09_links_independent : forall m e a b, reachable m -> ev_ok m e = true 
 Proof. exact links_independent. Qed.
 Print Assumptions C09_links_independent.
 
+(* Determinacy form.  [local a m] (Proofs/ChanMgrDet.v) is connection a's projection of the
+   manager: a's entries in the five tables, a's identifier counter, a's channel objects and the
+   futures created for a; channel objects and futures of other connections are replaced by
+   inert placeholders (so the ghost names, creation indices, are kept), their table entries
+   and counters are dropped.  An event of connection a does to the projection exactly what it
+   does to the whole manager - it reads nothing of any other connection - and sends the same
+   frames.  No hypothesis on the event ([ev_ok] is not needed). *)
+Theorem C09_step_local : forall m e a, reachable m -> ev_conn m e = Some a ->
+  step (local a m) e = (local a (fst (step m e)), snd (step m e)).
+Proof. exact step_local_reachable. Qed.
+Print Assumptions C09_step_local.
+
+(* Hence what happens on connection a is a function of a's projection: two managers that agree
+   on connection a, whatever they hold for other connections, send the same frames for an event
+   of connection a and agree on connection a afterwards ... *)
+Theorem C09_links_determinate : forall m1 m2 e a, reachable m1 -> reachable m2 ->
+  local a m1 = local a m2 -> ev_conn m1 e = Some a ->
+  ev_conn m2 e = Some a /\ snd (step m1 e) = snd (step m2 e) /\
+  local a (fst (step m1 e)) = local a (fst (step m2 e)).
+Proof. exact links_determinate_reachable. Qed.
+Print Assumptions C09_links_determinate.
+
+(* ... and so for every history of events of connection a. *)
+Theorem C09_links_determinate_history : forall a es m1 m2, reachable m1 -> reachable m2 ->
+  local a m1 = local a m2 -> evs_ok m1 es = true -> evs_ok m2 es = true -> all_on a m1 es ->
+  snd (run m1 es) = snd (run m2 es) /\ local a (fst (run m1 es)) = local a (fst (run m2 es)).
+Proof. exact run_determinate_reachable. Qed.
+Print Assumptions C09_links_determinate_history.
+
+(* not vacuous: two different managers that agree on connection 1, and an event of connection 1
+   that changes the projection *)
+Example C09_determinate_nonvacuous :
+  let m0 := m_init [(128, 2)] [(4097, 0)] in
+  let m1 := fst (step m0 (EOpen 2 K_LE 128 1 0 3)) in
+  let m2 := fst (step m0 (EOpen 2 K_CL 4097 1 0 0)) in
+  m1 <> m2 /\ local 1 m1 = local 1 m2 /\ ev_conn m1 (EOpen 1 K_LE 128 1 0 3) = Some 1 /\
+  local 1 (fst (step m1 (EOpen 1 K_LE 128 1 0 3))) <> local 1 m1.
+Proof. exact determinate_nonvacuous. Qed.
+
 (* ---- reopen_succeeds *)
 (* The hypotheses of the following theorems mention only the connection's own tables: an
    open / accept never fails because of another connection (D09b was a violation of this). *)
@@ -120,7 +169,7 @@ Theorem C09_reopen_le_request : forall m h psm credits, reachable m ->
   Z.of_nat (List.length (tkeys h (m_chs m))) < le_capacity ->
   tget h (nid m h) (m_reqs m) = None ->
   exists scid,
-    snd (step m (EOpen h K_LE psm 1 0 credits)) = [FLeReq (nid m h) psm scid credits] /\
+    snd (step m (EOpen h K_LE psm 1 0 credits)) = [FLeReq (nid m h) psm scid credits true] /\
     le_cid_lo <= scid <= le_cid_hi /\ tget h scid (m_chs m) = None /\
     let m1 := fst (step m (EOpen h K_LE psm 1 0 credits)) in
     wout m1 (wuid m) = O_PENDING /\ In (h, scid, huid m) (m_chs m1) /\
@@ -142,16 +191,17 @@ Theorem C09_reopen_le_completes : forall m h psm credits dcid credits', reachabl
 Proof. exact reopen_le_completes. Qed.
 Print Assumptions C09_reopen_le_completes.
 
-(* Accepting side: a request is refused only if its PSM is not served, its source CID is the
-   one of a connected channel of the same connection, or 64 channels are in use there. *)
+(* Accepting side: a request is refused only if its PSM is not served, its MTU / MPS are below
+   the minimum, its source CID is the one of a connected channel of the same connection, or 64
+   channels are in use there. *)
 Theorem C09_reopen_le_accept : forall m h id psm scid credits srv, reachable m ->
   srv_get psm (m_lesrv m) = Some srv ->
   tget h scid (m_le m) = None ->
   Z.of_nat (List.length (tkeys h (m_chs m))) < le_capacity ->
   exists local,
-    snd (step m (ERecv h (FLeReq id psm scid credits))) = [FLeRsp id local srv R_OK] /\
+    snd (step m (ERecv h (FLeReq id psm scid credits true))) = [FLeRsp id local srv R_OK] /\
     le_cid_lo <= local <= le_cid_hi /\ tget h local (m_chs m) = None /\
-    let m1 := fst (step m (ERecv h (FLeReq id psm scid credits))) in
+    let m1 := fst (step m (ERecv h (FLeReq id psm scid credits true))) in
     In (h, local, huid m) (m_chs m1) /\ In (h, scid, huid m) (m_le m1).
 Proof. exact reopen_le_accept. Qed.
 Print Assumptions C09_reopen_le_accept.
@@ -166,6 +216,41 @@ Theorem C09_reopen_classic_request : forall m h psm mode, reachable m ->
 Proof. exact reopen_classic_request. Qed.
 Print Assumptions C09_reopen_classic_request.
 
+(* End to end, as the property text reads: a connected LE channel is closed - disconnect()
+   sends the request and waits, the peer answers - then the awaited call has returned, the
+   channel is DISCONNECTED and drained, its CIDs are in neither table, and (unless the next
+   identifier is the one of a request still pending on this connection) the next open on the
+   connection is handed a CID that is not larger than the one just freed: the allocator takes
+   the smallest free CID, so the identifier of the closed channel IS used again. *)
+Theorem C09_close_reopen_le : forall m u c id psm credits, reachable m ->
+  hget m u = Some c -> c_kind c = KLe -> c_st c = SConnected -> c_live c = true ->
+  le_cid_lo <= c_scid c <= le_cid_hi ->
+  let h := c_conn c in
+  let m1 := fst (step m (EClose u)) in
+  let m2 := fst (step m1 (ERecv h (FDiscRsp id (c_dcid c) (c_scid c)))) in
+  reachable m2 /\
+  snd (step m (EClose u)) = [FDiscReq (nid m h) (c_dcid c) (c_scid c)] /\
+  wout m1 (wuid m) = O_PENDING /\ wout m2 (wuid m) = O_RESULT /\
+  tget h (c_scid c) (m_chs m2) = None /\ tget h (c_dcid c) (m_le m2) = None /\
+  (exists c2, hget m2 u = Some c2 /\ c_st c2 = SDisconnected /\ c_dw c2 = None /\ c_drained c2 = true) /\
+  (tget h (nid m2 h) (m_reqs m2) = None ->
+   exists scid,
+     snd (step m2 (EOpen h K_LE psm 1 0 credits)) = [FLeReq (nid m2 h) psm scid credits true] /\
+     le_cid_lo <= scid <= c_scid c).
+Proof. exact close_reopen_le. Qed.
+Print Assumptions C09_close_reopen_le.
+
+(* its hypotheses hold for the channel of the simplest history (open, accepted), and the CID
+   handed out after the close is the very same one *)
+Example C09_close_reopen_example :
+  let m := fst (run (m_init [] []) [EOpen 1 K_LE 128 1 0 3; ERecv 1 (FLeRsp 1 80 2 R_OK)]) in
+  evs_ok (m_init [] []) [EOpen 1 K_LE 128 1 0 3; ERecv 1 (FLeRsp 1 80 2 R_OK)] = true /\
+  option_map (fun c => (c_kind c, c_st c, c_live c, c_scid c, c_conn c)) (hget m 0) =
+    Some (KLe, SConnected, true, 64, 1) /\
+  snd (run m [EClose 0; ERecv 1 (FDiscRsp 2 80 64); EOpen 1 K_LE 128 1 0 3]) =
+    [[FDiscReq 2 80 64]; []; [FLeReq 3 128 64 3 true]].
+Proof. vm_compute. repeat split. Qed.
+
 (* ---- non-vacuity and necessity of hypotheses *)
 (* a history that satisfies the hypotheses: open, accept, close, reopen on the same
    connection, a second connection, link loss *)
@@ -178,11 +263,19 @@ Example C09_history_ok :
   m_chs m = [(1, 64, 1)] /\ m_le m = [(1, 64, 1)] /\ map w_out (m_w m) = [1; 1; 1; 1].
 Proof. vm_compute. repeat split. Qed.
 
-(* the hypothesis "no disconnection request for a channel whose connection request is
-   unanswered" is needed: without it a connect() is left pending for ever, even after the
-   link is gone (see docs/C09.md, open questions) *)
+(* the only hypothesis left on disconnection requests is needed: a request that carries the
+   (null) destination CID of a still connecting channel closes it and leaves connect() pending
+   for ever, even after the link is gone; any other request for such a channel is discarded *)
 Example C09_hypothesis_needed :
-  let es := [EOpen 1 K_LE 128 1 0 3; ERecv 1 (FDiscReq 9 64 80); EDown 1] in
+  let es := [EOpen 1 K_LE 128 1 0 3; ERecv 1 (FDiscReq 9 64 0); EDown 1] in
   evs_ok (m_init [] []) es = false /\
   map w_out (m_w (fst (run (m_init [] []) es))) = [O_PENDING].
 Proof. vm_compute. split; reflexivity. Qed.
+
+(* cancelling a pending open (or aborting the connecting channel) frees its CID and request *)
+Example C09_cancel_frees :
+  let es := [EOpen 1 K_LE 128 1 0 3; ECancel 0; EOpen 1 K_LE 128 1 0 3; EAbort 1] in
+  let m := fst (run (m_init [] []) es) in
+  evs_ok (m_init [] []) es = true /\ m_chs m = [] /\ m_reqs m = [] /\
+  map w_out (m_w m) = [O_CANCELLED; O_CANCELLED].
+Proof. vm_compute. repeat split. Qed.
